@@ -79,9 +79,9 @@ struct ElemProbe<E, true> {
   }
 };
 
+// phase 1: what can be observed without dereferencing data()
 template <class V>
-void take_snap(const V &v, Snap &s) {
-  typedef typename V::value_type E;
+void take_head(const V &v, Snap &s) {
   s = Snap();
   s.size = static_cast<uintmax_t>(v.size());
   s.cap = static_cast<uintmax_t>(v.capacity());
@@ -103,12 +103,23 @@ void take_snap(const V &v, Snap &s) {
     return;
   }
   if (static_cast<bool>(v.empty()) != (s.size == 0)) violation("C01", "model.empty", "empty() disagrees with size()");
+}
+// phase 2: the elements
+template <class V>
+void take_elems(const V &v, Snap &s) {
+  typedef typename V::value_type E;
+  if (!s.sane) return;
   const E *p = v.data();
   for (uintmax_t i = 0; i < s.size; ++i) {
     ElemProbe<E>::probe(p[i], s);
     s.vals.push_back(EI<E>::val(p[i]));
     s.addrs.push_back(p + i);
   }
+}
+template <class V>
+void take_snap(const V &v, Snap &s) {
+  take_head(v, s);
+  take_elems(v, s);
 }
 
 template <class V>
